@@ -668,6 +668,8 @@ type vxC03SessCase struct {
 	TS       int64               `json:"ts,omitempty"`
 	Trace    bool                `json:"trace,omitempty"`
 	Payload  map[string]string   `json:"payload,omitempty"`
+	EmptyPL  bool                `json:"empty_payload,omitempty"`
+	Advert   []string            `json:"advertised,omitempty"` // COMPRESSION values the server advertises (nil: snappy and lz4)
 	NoSkip   bool                `json:"no_skip,omitempty"`
 	Named    bool                `json:"named,omitempty"`
 	Binds    []vxC03Bind         `json:"binds,omitempty"`   // prepared
@@ -739,6 +741,16 @@ func TestVxC03Session(t *testing.T) {
 			}
 			if c.Proto >= 4 && rapid.IntRange(0, 3).Draw(t, "payload") == 0 {
 				c.Payload = map[string]string{rapid.StringMatching(`[a-z]{1,6}`).Draw(t, "pk"): hex.EncodeToString(vxDrawBytes(t, 10))}
+			} else if c.Proto >= 4 && rapid.IntRange(0, 5).Draw(t, "emptypl") == 0 {
+				c.EmptyPL = true
+			}
+			switch rapid.IntRange(0, 5).Draw(t, "advert") {
+			case 0:
+				c.Advert = []string{"lz4"}
+			case 1:
+				c.Advert = []string{"deflate", "lz4"}
+			case 2:
+				c.Advert = []string{"snappy"}
 			}
 			switch c.Kind {
 			case "prepared":
@@ -790,6 +802,16 @@ func TestVxC03Session(t *testing.T) {
 			if c.Snappy {
 				comp = SnappyCompressor{}
 			}
+			negotiated := c.Snappy
+			if c.Advert != nil {
+				node.Supported = map[string][]string{"CQL_VERSION": {"3.4.4"}, "COMPRESSION": c.Advert}
+				negotiated = false
+				for _, a := range c.Advert {
+					if a == "snappy" && c.Snappy {
+						negotiated = true
+					}
+				}
+			}
 			s, err := vxClusterConfig(cl, c.Proto, func(cfg *ClusterConfig) {
 				cfg.Compressor = comp
 				if c.Keyspace {
@@ -800,7 +822,7 @@ func TestVxC03Session(t *testing.T) {
 				return fmt.Errorf("harness: CreateSession: %v", err)
 			}
 			defer s.Close()
-			exp := &vxC03Case{Version: c.Proto, Snappy: c.Snappy, Tracing: c.Trace, Payload: c.Payload, Cons: c.Cons, Serial: c.Serial}
+			exp := &vxC03Case{Version: c.Proto, Snappy: negotiated, Tracing: c.Trace, Payload: c.Payload, Cons: c.Cons, Serial: c.Serial}
 			if c.Proto >= 5 && c.Keyspace {
 				exp.Keyspace = "ks1"
 			}
@@ -811,6 +833,9 @@ func TestVxC03Session(t *testing.T) {
 				exp.DefTS, exp.TS = true, c.TS
 			}
 			pay := vxPayloadBytes(c.Payload)
+			if c.EmptyPL && pay == nil {
+				pay = map[string][]byte{}
+			}
 			tr := &vxTracer{}
 			stmtQ := "LIST q"
 			placeholders := func(n int) string {
